@@ -93,7 +93,7 @@ def generate(streams, tier):
         else:
             local.append(["next_during_outage"])
     return {"script": script, "local": local, "net_seed": rng.randrange(1 << 30), "draw_seed": rng.randrange(1 << 30),
-            "jitter": rng.choice([0, 5, 50, 400]), "start_base": rng.randrange(5), "sequencer_class": rng.randrange(4)}
+            "jitter": rng.choice([0, 5, 50, 400]), "start_base": rng.randrange(5), "sequencer_class": rng.randrange(5)}
 
 
 class _Session:
@@ -336,7 +336,7 @@ def run_local(plan, s, res, tr):
             return self._v
 
     # the application's own sequencer class: the library's, or derived from it with a constructor of its own
-    kind = plan.get("sequencer_class", 0) % 4
+    kind = plan.get("sequencer_class", 0) % 5
     Base = s.PacketSequencer
 
     class NamedSequencer(Base):
@@ -353,8 +353,21 @@ def run_local(plan, s, res, tr):
             super().__init__(start)
             self.label = label
 
+    class RecordingSequencer(Base):
+        """keeps a log of the updates it saw; its own state is set up after the base class'"""
+
+        def __init__(self, start):
+            super().__init__(start)
+            self.updates = []
+
+        def set_sequence_start(self, start):
+            self.updates.append(start)
+            super().set_sequence_start(start)
+
     installed = ProbeStart(0)
-    if kind == 1:
+    if kind == 4:
+        seq = RecordingSequencer(installed)
+    elif kind == 1:
         seq = NamedSequencer("client", installed)
     elif kind == 2:
         seq = DefaultSequencer()
